@@ -67,6 +67,10 @@ pub struct Sim {
     pub event_dump: Option<Vec<String>>,
     pub sets_offered: Vec<(u32, usize, &'static str)>,
     pub stop_on_violation_of: Option<&'static str>,
+    /// Abstract states visited / transitions taken (DESIGN.md section 8).
+    pub abs_states: std::collections::HashSet<u64>,
+    pub abs_trans: std::collections::HashSet<(u64, u64)>,
+    prev_abs: std::collections::BTreeMap<H32, u64>,
 }
 
 enum End {
@@ -95,6 +99,7 @@ impl Sim {
                 main_result: None,
                 quiescing: false,
                 frozen_hash: None,
+                frozen_at_step: None,
                 op_kind: "boot",
                 step_delivers_only_nontrampoline: false,
                 step_delivered_calls: Vec::new(),
@@ -113,6 +118,9 @@ impl Sim {
             event_dump: None,
             sets_offered: Vec::new(),
             stop_on_violation_of: None,
+            abs_states: Default::default(),
+            abs_trans: Default::default(),
+            prev_abs: Default::default(),
         }
     }
 
@@ -247,12 +255,67 @@ impl Sim {
             self.settle().await;
             self.process_events();
             self.or.end_of_step(&self.w);
+            self.record_abstract();
             if self.should_stop() {
                 return End::Done;
             }
         }
         self.or.end_of_run(&self.w);
         End::Done
+    }
+
+    /// Abstract state per touched hash: (store kind, parts, pay running, |held|
+    /// bucket, reference entry flags, kinds of outstanding RPCs).
+    fn record_abstract(&mut self) {
+        let touched = self.or.touched.clone();
+        for x in touched {
+            let n = &self.w.node;
+            let mut f = Fnv::default();
+            f.u64(match n.store(&x) {
+                rf::StoreKind::Absent => 0,
+                rf::StoreKind::Free => 1,
+                rf::StoreKind::Pending { .. } => 2,
+                rf::StoreKind::Succeeded(_) => 3,
+                rf::StoreKind::Garbage => 4,
+            });
+            f.u64(n.has_pending(&x) as u64);
+            f.u64(n.has_complete(&x) as u64);
+            f.u64(n.cmd_running(&x) as u64);
+            f.u64(n.pay_rpc_outstanding(&x) as u64);
+            let held = Oracles::held_for(&self.w, &x).count();
+            f.u64(held.min(3) as u64);
+            match self.or.entries.get(&x) {
+                None => f.u64(99),
+                Some(e) => {
+                    f.u64(e.funded as u64);
+                    f.u64(e.doomed.is_some() as u64);
+                    f.u64(e.either as u64);
+                    f.u64(e.marker_issued as u64);
+                    f.u64(e.pay_issued as u64);
+                    f.u64(e.restart_path as u64);
+                    f.u64(match &e.fetch_reply {
+                        None => 0,
+                        Some(Ok(_)) => 1,
+                        Some(Err(_)) => 2,
+                    });
+                }
+            }
+            let mut mask = 0u64;
+            for (_, r) in n.outstanding_rpcs() {
+                if r.hash == Some(x) {
+                    mask |= 1 << (super::oracle::rpc_kind(r.method, &r.params) as u64);
+                }
+            }
+            f.u64(mask);
+            f.u64(self.w.plugin_up as u64);
+            let s = f.0;
+            self.abs_states.insert(s);
+            if let Some(p) = self.prev_abs.insert(x, s) {
+                if p != s {
+                    self.abs_trans.insert((p, s));
+                }
+            }
+        }
     }
 
     fn should_stop(&self) -> bool {
@@ -733,6 +796,11 @@ impl Sim {
                 seam::stdin_release(usize::MAX);
                 self.stdin_released = self.stdin_written;
                 self.mark_delivered();
+            }
+            Op::Freeze { hash } => {
+                self.w.frozen_hash = Some(*hash as usize);
+                self.w.frozen_at_step = Some(self.w.step);
+                self.stats.fault("hash-frozen");
             }
             Op::Crash { .. } => unreachable!(),
         }
